@@ -48,6 +48,13 @@ def gen_message(rng, kind):
     return msg[:900]
 
 
+def flush_arg(rng, io, k):
+    """mptio variant: a flush moves everything finished; it is reached directly or through mpt_stream_poll(POLLOUT)."""
+    if not io:
+        return {"n": k}
+    return {"n": ALL, "via": rng.choice(["flush", "flush", "poll", "poll0"])}
+
+
 def gen_histories(ck, n, nmsg, io=False):
     """io=True: schedules for the mptio variant (shipped codecs only, a flush moves everything finished)."""
     rng = ck.rng
@@ -69,10 +76,15 @@ def gen_histories(ck, n, nmsg, io=False):
             left = len(msg)
             while left:
                 k = min(left, rng.choice(sizes))
-                beh.append({"a": "push", "arg": {"n": k}})
+                arg = {"n": k}
+                if io and rng.random() < 0.3:
+                    # same bytes as a fragment list (incl. empty fragments) through mpt_stream_append
+                    cuts = sorted(rng.randrange(k + 1) for _ in range(rng.randrange(0, 4)))
+                    arg["frags"] = [b - a for a, b in zip([0] + cuts, cuts + [k])]
+                beh.append({"a": "push", "arg": arg})
                 left -= k
                 if rng.random() < 0.2:
-                    beh.append({"a": "flush", "arg": {"n": ALL if io else rng.choice(sizes)}})
+                    beh.append({"a": "flush", "arg": flush_arg(rng, io, rng.choice(sizes))})
             beh.append({"a": "end", "arg": {"x": 0}})
             pend += 1
             for _ in range(rng.randrange(0, 6)):
@@ -81,7 +93,7 @@ def gen_histories(ck, n, nmsg, io=False):
                     beh.append({"a": "recv", "arg": {"x": 0}})
                 else:
                     k = 1 if style == "bytewise" else (ALL if style == "bulk" else rng.choice(sizes))
-                    beh.append({"a": op, "arg": {"n": ALL if (io and op == "flush") else k}})
+                    beh.append({"a": op, "arg": flush_arg(rng, io, k) if op == "flush" else {"n": k}})
         # drain: everything flushed, delivered (bytewise or not) and received
         beh.append({"a": "flush", "arg": {"n": ALL}})
         if style == "bytewise":
